@@ -136,6 +136,18 @@ PROPS["C15"] = {
     "expect_probes": ["c15.data_answers", "c15.multifrag", "c15.resends", "c15.n_accepted", "c15.data_before_n", "c15.n_huge", "c15.n_tiny"],
 }
 
+PROPS["C20"] = {
+    "rule": "real iodined -b <port> (plain and '*.' wildcard domains, IPv4 and IPv6 listeners); 1-6 asker hosts send 1-200 queries for names outside and near the tunnel domain (suffix without label boundary, one label more/less, "
+            "63-octet labels, 253-character names, case variants of the domain) with ids drawn from pools of 4..60000 values (reuse, id 0, more than 16 outstanding); a model local DNS on 127.0.0.1:<port> replies after 50 us..4 s "
+            "(reordering), not at all, twice, or with ids nobody used. Oracle (ledger of the 16 most recent forwards): each non-tunnel query yields exactly one datagram to the local port with the same id, name and type, tunnel names none; "
+            "a local reply whose id is unique among the remembered 16 goes unchanged, exactly once, to that asker; with reused ids only to an asker that used the id; an id matching none of the 16 reaches nobody. "
+            "non-trivial = >=1 query forwarded and >=1 reply relayed; distinct = distinct run fingerprints",
+    "jobs": [
+        {"scen": "forward", "sets": {}, "quick": 6000, "thorough": 400000},
+    ],
+    "expect_probes": ["c20.asked", "c20.asked_v6", "c20.forwarded", "c20.relayed", "c20.relay_ok", "c20.reply_unknown_id", "c20.reply_id_ambiguous", "c20.ring_wrapped", "c20.tunnel_names"],
+}
+
 LEVEL_TEXT = {
     "C03": "Exploration: seeded adversarial histories against the real server in virtual time, judged by an independent authorisation model and by users[] snapshots around every processed datagram.",
     "C04": "Exploration: seeded multi-session histories with spoofers and expiry/reuse timing, judged by a wire-level model of slot ownership and a reference downstream reassembler.",
@@ -163,5 +175,5 @@ NOT_CLAIMED = {
     "C08": "check under construction in this session; not claimed until it is sound",
     "C09": "check under construction in this session; not claimed until it is sound",
     "C11": "check under construction in this session (relay family); not claimed until it is sound",
-    "C20": "check under construction in this session (forwarding scenario); not claimed until it is sound",
+    "C20": "under construction",
 }
